@@ -222,7 +222,7 @@ class C13(Check):
             'Oracle: exact processor-sharing model (fractions.Fraction), tolerance 1e-9*(1+|t|). non-trivial = >=2 '
             'overlapping transfers with sum of limits > T and unequal limits, or a removal mid-flight; distinct by '
             'sha1(program+faults).')
-    budgets = {'quick': dict(examples=2400, procs=4), 'thorough': dict(examples=40000, procs=16)}
+    budgets = {'quick': dict(examples=2400, procs=4), 'thorough': dict(examples=300000, procs=16)}
     level_text = ('Reference-model comparison: every completion time of every generated transfer set must equal the '
                   'rational fluid-model time (rate = limit * min(1, T / sum of active limits)); removed transfers are '
                   'removed from the model at their removal time, so later completions and the probe transfers expose '
